@@ -1,0 +1,15 @@
+//go:build verif
+
+package ledger
+
+// VerifHook, when set, is called immediately before every durable write of a
+// commit (ledger version save, meta record, EVM state flush).  It exists only
+// in builds with the `verif` tag and is used by the verification harnesses in
+// /verif to simulate a process death at an exact write position.
+var VerifHook func(point string)
+
+func VerifPoint(point string) {
+	if VerifHook != nil {
+		VerifHook(point)
+	}
+}
